@@ -577,9 +577,11 @@ fn cuts_slpp(
 		} else {
 			vec![]
 		};
+		// (and every offset of the small members: the raw end block, small JSON members)
+		let small: Vec<(usize, usize)> = crate::tarx::walk(&arch).map(|es| es.iter().filter(|e| e.size <= 96).map(|e| (e.data_off, e.data_off + e.size + 1)).collect()).unwrap_or_default();
 		for cut in 0..n {
 			let region = slpp_region(&arch, cut);
-			let near_block = cut % 512 < 2 || cut % 512 > 509;
+			let near_block = cut % 512 < 2 || cut % 512 > 509 || small.iter().any(|(a, b)| cut >= *a && cut <= *b);
 			let near_msg = bounds.iter().any(|b| cut + 8 >= *b && cut <= *b + 12);
 			let keep = if region == "frames.arrow:data" {
 				stride_arrow <= 1 || cut % stride_arrow == 0 || cut - arrow_start <= 2048 || n - cut <= 3072 || near_block || near_msg
@@ -729,6 +731,25 @@ fn check_skip(beh: &Beh, built: &Built, sink: &Sink) {
 				o => viols.push(viol("skip_rewrite_slp", &c, o.kind(), format!("re-read: {}", o.detail()))),
 			},
 			o => viols.push(viol("skip_rewrite_slp", &c, o.kind(), o.detail())),
+		}
+		// (under each compression in turn; the others below)
+		if let Outcome::Ok(sk2) = real::read_slp(&built.bytes, true, hash) {
+			for comp in [Comp::Lz4, Comp::Zstd] {
+				if let Outcome::Ok(sk3) = real::read_slp(&built.bytes, true, hash) {
+					match real::write_slpp(sk3, comp) {
+						Outcome::Ok(arch) => match real::read_slpp(&arch, false) {
+							Outcome::Ok(g2) => {
+								if let Some(m) = same_meta(&full, &g2) {
+									viols.push(viol("skip_rewrite_slpp", &c, "mismatch", format!("{} ({})", m, comp.name())));
+								}
+							}
+							o => viols.push(viol("skip_rewrite_slpp", &c, o.kind(), format!("re-read ({}): {}", comp.name(), o.detail()))),
+						},
+						o => viols.push(viol("skip_rewrite_slpp", &c, o.kind(), format!("({}) {}", comp.name(), o.detail()))),
+					}
+				}
+			}
+			let _ = sk2;
 		}
 		match real::write_slpp(sk, Comp::None) {
 			Outcome::Ok(arch) => match real::read_slpp(&arch, false) {
